@@ -9,7 +9,7 @@
    (a) component totality in small models of the re-entrant parts of the renderer. *)
 From Coq Require Import List String Bool Arith NArith.
 From MV Require Import Base.PyStr Base.Res Exc.ExcDefs Gen.ExcFlow Exc.ExcFlow Exc.ExcProofs
-  Exc.CoreModel Exc.CoreProofs.
+  Exc.CoreModel Exc.CoreProofs Gen.GuardSrc Exc.CoreSrc Exc.CoreSrcProofs.
 Import ListNotations.
 
 (* Bound: the n_sites sites present in the source when the table was regenerated (n_sites is part
@@ -73,6 +73,38 @@ Theorem C01_core_total :
      expand succs (S (List.length U)) [] ks = Ok tt).
 Proof. split; [exact section_parent_exists | exact expand_total]. Qed.
 Print Assumptions C01_core_total.
+
+(* Source-translation tie (round 3).  Gen/GuardSrc.v is regenerated on every run from the statements of
+   DocutilsRenderer.render_substitution that touch document.sub_references (intersection test, update,
+   try / finally difference_update) and of MockIncludeDirective.run that touch include_log (membership test,
+   append, try / finally pop).  The expansion driven by that translated code returns, with the guard state
+   restored, within fuel |U|+1: the nesting depth of substitutions is bounded by the number of distinct names
+   and that of includes by the number of distinct (normalised path, clip options) keys. *)
+Theorem C01_core_total_src :
+  (forall succs U, closed succs U -> forall refs, refs <> [] -> incl refs U ->
+     expand_subst_src succs (S (List.length U)) [] refs = Ok []) /\
+  (forall succs U, (forall k k', In k' (succs k) -> In k' U) -> forall key, In key U ->
+     expand_include_src succs (S (List.length U)) [] key = Ok []).
+Proof. split; [exact subst_src_total | exact include_src_total]. Qed.
+Print Assumptions C01_core_total_src.
+
+(* the translated guards refine the hand-written model: same outcome, guard state given back unchanged *)
+Theorem C01_guards_refine_model :
+  (forall succs fuel active refs,
+     expand_subst_src succs fuel active refs = lift (expand succs fuel active refs) active) /\
+  (forall succs fuel log active key, equivm log active ->
+     expand_include_src succs fuel log key = lift (expand (lift_inc succs) fuel active [key]) log).
+Proof. split; [exact subst_src_refines | exact include_src_refines]. Qed.
+Print Assumptions C01_guards_refine_model.
+
+(* handler bodies (regenerated column "what the except clause does"): every except clause / suppress block of
+   the package reports the problem (warning / system message), or re-raises only classes that its function
+   declares (so the callers are checked against them), or is a silent fallback with a stated justification;
+   in particular read_topmatter re-raises TopmatterReadError (declared, caught by both Parser.parse) and
+   render_front_matter / merge_file_level / get_inventory_matches / run_directive warn and continue. *)
+Theorem C01_handlers_report : forallb handler_ok handlers = true /\ silent_live = true.
+Proof. exact handlers_all_ok. Qed.
+Print Assumptions C01_handlers_report.
 
 (* without the include log (the code before the repair) a self-including file exhausts every fuel *)
 Theorem C01_include_without_log_refuted :
